@@ -1004,3 +1004,31 @@ Example ex_guard :
 Proof.
   apply (guard_extract chain_cfg (fun k => k)); try reflexivity. discriminate.
 Qed.
+
+(* ------------------------------------------------------------------ customize(): composition of
+   the user's elaborate result with the prune flag *)
+Lemma customized_spec hide prune :
+  (* no user hook, or it returns None: PRUNE iff prune *)
+  (forall h, fst (customized hide prune (Some (ENone, h))) = (if prune then ESeq [] else ENone)) /\
+  fst (customized hide prune None) = (if prune then ESeq [] else ENone) /\
+  snd (customized hide prune None) = hide /\
+  (* any sequence result -- in particular the empty one, PRUNE -- is returned as it is, whatever prune *)
+  (forall l h, customized hide prune (Some (ESeq l, h)) = (ESeq l, h)) /\
+  (forall i h, customized hide prune (Some (EOne (RItem i), h)) = (EOne (RItem i), h)) /\
+  (forall h, customized hide prune (Some (ERaise, h)) = (ERaise, h)).
+Proof. repeat split. Qed.
+
+(* hence a customize()d frame whose user hook returns PRUNE / () / [] prunes exactly like a directly
+   registered hook, also with prune left at its default *)
+Lemma customized_prune_exact u e a cx fl ug f hide h fuel org d rest errs out t :
+  let c := mkcfg u ((f, customized hide false (Some (ESeq [], h))) :: e) a cx fl [] false all_guards ug in
+  nopy rest ->
+  run_result_is c (run fuel false c [] ((QFr f org, d) :: rest) errs out t)
+                out errs f h [] (map er_t (survivors d rest)).
+Proof.
+  intros c NP.
+  assert (E : elab c f = ESeq []) by (unfold c; simpl; rewrite Nat.eqb_refl; reflexivity).
+  assert (H : prehide c f = h) by (unfold c; simpl; rewrite Nat.eqb_refl; reflexivity).
+  destruct (prune_exact c fuel f org d rest errs out t (mkcfg_plain _ _ _ _ _ _) NP E) as (_ & _ & _ & R).
+  rewrite H in R. exact R.
+Qed.
